@@ -43,6 +43,25 @@ def rsa_artifact(rng, kind, pool=None):
                                   dev_bits=rng.choice([56, 64, 72, 80]))
     q = rsagen.rand_prime_top2(rng, 1024)
     n = p * q
+  elif kind.split(':')[0] in ('topones', 'topzeros'):
+    # moduli next to a power of two (all-one / all-zero leading bits) at bit
+    # lengths around the sizes where checks switch scaling: float conversion
+    # and isqrt/iroot boundaries
+    L = int(kind.split(':')[1]) if ':' in kind else rng.choice(
+        [1023, 1024, 1025, 1026, 1027, 2047, 2048, 3072, 4096, 768, 770])
+    kind = kind.split(':')[0]
+    hb = L // 2
+    if kind == 'topones':
+      p = (1 << (L - hb)) - 1 - 2 * rng.below(2000)
+      q = (1 << hb) - 1 - 2 * rng.below(2000)
+      while not rsagen.is_prime(p):
+        p -= 2
+      while not rsagen.is_prime(q) or q == p:
+        q -= 2
+    else:
+      p = rsagen.next_prime((1 << (L - hb - 1)) + rng.below(2 ** 40))
+      q = rsagen.next_prime(((1 << (L - 1)) // p) + 1 + rng.below(2 ** 20))
+    n = p * q
   elif kind == 'tiny':
     n, p, q = rsagen.healthy(rng, rng.choice([256, 512, 768]))
   elif kind == 'swap':
@@ -145,7 +164,9 @@ def rsa_artifact(rng, kind, pool=None):
 def rsa_mixed_batch(rng, size, slow_budget=1, kinds=None, with_healthy=True):
   """A batch of artifacts mixing families; nested / duplicate moduli and a
   prime dividing a neighbour are planted when the batch is large enough."""
-  kinds = kinds or (CHEAP_WEAK + rsagen.DEGENERATE_KINDS + ['lhw', 'n1shared',
+  kinds = kinds or (CHEAP_WEAK + rsagen.DEGENERATE_KINDS + ['topones',
+                                                            'topzeros'] +
+                    ['lhw', 'n1shared',
                                                             'roca'])
   pool = []
   arts = []
